@@ -170,7 +170,24 @@ func c20Coverage(c *Ctx, info *types.Info, fd *ast.FuncDecl, name string, table 
 			})
 			// an early exit is sound only for "first entry not before t" in an ascending table; not recognised -> refuse
 			r.Check(early == "", "R4.coverage", "gps."+name+"/range", P.Rel(x.Pos()), fmt.Sprintf("visits all %d entries", n), "range over the whole table"+map[bool]string{true: "", false: " but " + early}[early == ""], true)
-			c20Body(c, info, x.Body, name, x.Value)
+			var eobj types.Object
+			if eid, ok := x.Value.(*ast.Ident); ok {
+				eobj = info.Defs[eid]
+			}
+			var kobj types.Object
+			if kid, ok := x.Key.(*ast.Ident); ok {
+				kobj = info.Defs[kid]
+			}
+			c20Body(c, info, x.Body, name, func(e ast.Expr) bool {
+				if id, ok := unparen(e).(*ast.Ident); ok && eobj != nil {
+					return info.Uses[id] == eobj
+				}
+				if ix, ok := unparen(e).(*ast.IndexExpr); ok && kobj != nil && isTable(ix.X) {
+					id, ok := ix.Index.(*ast.Ident)
+					return ok && info.Uses[id] == kobj
+				}
+				return false
+			})
 		case *ast.ForStmt:
 			// counted loop indexing the table
 			uses := false
@@ -204,6 +221,35 @@ func c20Coverage(c *Ctx, info *types.Info, fd *ast.FuncDecl, name string, table 
 				// still be complete, which is what is checked here
 			}
 			r.Check(lo == 0 && hi == n-1, "R4.coverage", "gps."+name+"/for", P.Rel(x.Pos()), fmt.Sprintf("visits indices 0..%d", n-1), fmt.Sprintf("visits indices %d..%d", lo, hi), true)
+			var iobj types.Object
+			if as, ok := x.Init.(*ast.AssignStmt); ok && len(as.Lhs) == 1 {
+				if iid, ok := as.Lhs[0].(*ast.Ident); ok {
+					iobj = info.Defs[iid]
+				}
+			}
+			locals := map[types.Object]bool{}
+			ast.Inspect(x.Body, func(m ast.Node) bool { // ls := leapSecondsTable[i]
+				if as, ok := m.(*ast.AssignStmt); ok && len(as.Lhs) == 1 && len(as.Rhs) == 1 {
+					if ix, ok := unparen(as.Rhs[0]).(*ast.IndexExpr); ok && isTable(ix.X) {
+						if id, ok := ix.Index.(*ast.Ident); ok && info.Uses[id] == iobj {
+							if lid, ok := as.Lhs[0].(*ast.Ident); ok && info.Defs[lid] != nil {
+								locals[info.Defs[lid]] = true
+							}
+						}
+					}
+				}
+				return true
+			})
+			c20Body(c, info, x.Body, name, func(e ast.Expr) bool {
+				if id, ok := unparen(e).(*ast.Ident); ok {
+					return locals[info.Uses[id]]
+				}
+				if ix, ok := unparen(e).(*ast.IndexExpr); ok && isTable(ix.X) {
+					id, ok := ix.Index.(*ast.Ident)
+					return ok && iobj != nil && info.Uses[id] == iobj
+				}
+				return false
+			})
 		}
 		return true
 	})
@@ -213,22 +259,15 @@ func c20Coverage(c *Ctx, info *types.Info, fd *ast.FuncDecl, name string, table 
 }
 
 // c20Body: inside the range body, the only conditional is <elem>.Time.Before(x) and the update uses <elem>.Duration.
-func c20Body(c *Ctx, info *types.Info, body *ast.BlockStmt, name string, elem ast.Expr) {
+func c20Body(c *Ctx, info *types.Info, body *ast.BlockStmt, name string, isElem func(ast.Expr) bool) {
 	r := c.Run
 	P := c.Prog
-	eid, _ := elem.(*ast.Ident)
-	if eid == nil {
-		r.Unknown("R4.coverage", "gps."+name+"/body", P.Rel(body.Pos()), "range value variable", "none")
-		return
-	}
-	eobj := info.Defs[eid]
 	isElemField := func(e ast.Expr, f string) bool {
 		sel, ok := unparen(e).(*ast.SelectorExpr)
 		if !ok || sel.Sel.Name != f {
 			return false
 		}
-		id, ok := sel.X.(*ast.Ident)
-		return ok && info.Uses[id] == eobj
+		return isElem(sel.X)
 	}
 	nIf, okIf, okUpd := 0, false, false
 	ast.Inspect(body, func(n ast.Node) bool {
